@@ -157,6 +157,72 @@ def sobs(x):
     raise ValueError("sobs %r" % (x,))
 
 
+def fn1(x):
+    h, a = head(x), args(x)
+    return {"id": "FId", "even": "FEven", "pair_self": "FPairSelf", "some_if_even": "FSomeIfEven", "not": "FNot"}.get(h) or \
+        {"add": "(FAdd %s)", "mul": "(FMul %s)", "mod": "(FMod %s)", "lt": "(FLt %s)", "eq": "(FEq %s)"}.get(h, "(FConst %s)") % (zlit(a[0]) if h != "const" else val(a[0]))
+
+
+def fn2(x):
+    return {"add": "F2Add", "snd": "F2Snd", "fst": "F2Fst", "pair": "F2Pair", "max": "F2Max", "min": "F2Min", "count": "F2Count"}[head(x)]
+
+
+def uop(x):
+    h, a = head(x), args(x)
+    prim = {
+        "map": lambda: "OMap (apply_fn %s)" % fn1(a[0]),
+        "map_to": lambda: "OMapTo %s" % val(a[0]),
+        "filter": lambda: "OFilter (pred_of %s)" % fn1(a[0]),
+        "filter_map": lambda: "OFilterMap (opt_of %s)" % fn1(a[0]),
+        "tap": lambda: "OTap",
+        "on_error_map": lambda: "OOnErrorMap (fun e => (e + %s)%%Z)" % zlit(a[0]),
+        "take": lambda: "OTake %s" % nat(a[0]),
+        "skip": lambda: "OSkip %s" % nat(a[0]),
+        "take_while": lambda: "OTakeWhile (pred_of %s) false" % fn1(a[0]),
+        "take_while_inclusive": lambda: "OTakeWhile (pred_of %s) true" % fn1(a[0]),
+        "skip_while": lambda: "OSkipWhile (pred_of %s)" % fn1(a[0]),
+        "take_last": lambda: "OTakeLast %s" % nat(a[0]),
+        "skip_last": lambda: "OSkipLast %s" % nat(a[0]),
+        "last": lambda: "OLast",
+        "scan": lambda: "OScan (apply_fn2 %s) %s" % (fn2(a[0]), val(a[1])),
+        "scan_default": lambda: "OScan (apply_fn2 %s) (VZ 0%%Z)" % fn2(a[0]),
+        "default_if_empty": lambda: "ODefaultIfEmpty %s" % val(a[0]),
+        "distinct": lambda: "ODistinct",
+        "distinct_key": lambda: "ODistinctKey (apply_fn %s)" % fn1(a[0]),
+        "distinct_until_changed": lambda: "ODistinctUntilChanged",
+        "distinct_until_key_changed": lambda: "ODistinctUntilKeyChanged (apply_fn %s)" % fn1(a[0]),
+        "pairwise": lambda: "OPairwise",
+        "buffer_with_count": lambda: "OBufferCount %s" % nat(a[0]),
+        "contains": lambda: "OContains %s" % val(a[0]),
+        "collect": lambda: "OCollect",
+        "start_with": lambda: "OStartWith %s" % lst(val(v) for v in a),
+    }
+    if h in prim:
+        return "UPrim (%s)" % prim[h]()
+    other = {
+        "first": lambda: "UFirst", "first_or": lambda: "UFirstOr %s" % val(a[0]), "last_or": lambda: "ULastOr %s" % val(a[0]),
+        "element_at": lambda: "UElementAt %s" % nat(a[0]), "ignore_elements": lambda: "UIgnoreElements",
+        "all": lambda: "UAll (pred_of %s)" % fn1(a[0]),
+        "reduce_initial": lambda: "UReduceInitial (apply_fn2 %s) %s" % (fn2(a[0]), val(a[1])),
+        "reduce": lambda: "UReduceInitial (apply_fn2 %s) (VZ 0%%Z)" % fn2(a[0]),
+        "count": lambda: "UCount", "sum": lambda: "USum", "max": lambda: "UMax", "min": lambda: "UMin", "average": lambda: "UAverage",
+    }
+    if h in other:
+        return other[h]()
+    raise ValueError("uop %r" % (x,))
+
+
+def src(x):
+    h, a = head(x), args(x)
+    m = {"of": lambda: "SrcOf %s" % val(a[0]), "of_some": lambda: "SrcOfOption (Some %s)" % val(a[0]), "of_none": lambda: "SrcOfOption None",
+         "of_ok": lambda: "SrcOfResult (inl %s)" % val(a[0]), "of_err": lambda: "SrcOfResult (inr %s)" % zlit(a[0]),
+         "of_fn": lambda: "SrcOfFn %s" % val(a[0]), "start": lambda: "SrcStart %s" % val(a[0]),
+         "from_iter": lambda: "SrcFromIter %s" % lst(val(v) for v in a), "repeat": lambda: "SrcRepeat %s %s" % (val(a[0]), nat(a[1])),
+         "empty": lambda: "SrcEmpty", "never": lambda: "SrcNever", "throw": lambda: "SrcThrow %s" % zlit(a[0]),
+         "create": lambda: "SrcCreate %s" % lst(ev(e) for e in a)}
+    return m[h]()
+
+
 def lst(items):
     return "[" + "; ".join(items) + "]"
 
@@ -172,6 +238,13 @@ def statement(case_text, model_answer):
         api = body[1]
         lim = "(Some 1%nat)" if api in ("concat_all", "concat_map") else "None" if api in ("flatten", "flat_map") or body[2] == "inf" else "(Some %s)" % nat(body[2])
         return "run_flatten %s %s = %s" % (lim, lst(fstim(s) for s in args(body[3])), lst(fout(o) for o in out))
+    if kind in ("chain", "chain_t"):
+        return "run_src (%s) %s = %s" % (src(body[0]), lst("(%s)" % uop(u) for u in args(body[1])), lst(ev(e) for e in out))
+    if kind in ("hotchain", "hotchain_t"):
+        calls = args(body[0])
+        if len(body) > 2:
+            calls = calls[:int(args(body[2])[0])]
+        return "run_hot (expand_all %s) (slot %s) = %s" % (lst("(%s)" % uop(u) for u in args(body[1])), lst(ev(e) for e in calls), lst(ev(e) for e in out))
     if kind == "subject":
         return "srun subj0 %s = %s" % (lst(sop(o) for o in args(body[1])), lst(sobs(o) for o in out))
     return None
@@ -186,7 +259,7 @@ def cross_check(rep, name, cases, results, nsample):
         return
     step = max(1, len(pool) // nsample)
     chosen = pool[::step][:nsample]
-    lines = ["From RxModel Require Import Timed Flatten Subject.", "Open Scope N_scope.", ""]
+    lines = ["From RxModel Require Import Timed Flatten Subject Derived.", "Open Scope N_scope.", ""]
     k = 0
     for cid, text in chosen:
         try:
